@@ -531,7 +531,7 @@ class LockCheck:
             json.dump(spec, f)
         return run_sched(bindir, "random" if "runs" in spec else "explore", path, timeout=3000)
 
-    def run(self, tier, tours, configs, configs_if_differs, specs, tour_budget=None):
+    def run(self, tier, tours, configs, configs_if_differs, specs, tour_budget=None, stress=None):
         chk = core.Check(self.pid, tier, "model_checking")
         bindir = core.cargo_build(bins=["sched"])
         all_ords, drift, tour_stats = {}, [], []
@@ -628,6 +628,10 @@ class LockCheck:
                 chk.sample({"source": tag, "progs": spec["progs"], "sched": runs[-1]["end"]["sched"]})
 
         judge_pending()
+
+        # 5. hook-free binding: the real lock on the real kernel futex + FutexSys scenarios, judged by SyncStress.tla
+        if stress:
+            self.stress(chk, bindir, dict(stress, kind=self.lock, seed=chk.seed))
         chk.nontrivial = self.nontrivial
         chk.rule = self.rule
         chk.extra["transition_tour"] = tour_stats
@@ -639,8 +643,57 @@ class LockCheck:
         chk.assumptions = self.assumptions
         return chk.finish()
 
+    def stress(self, chk, bindir, spec):
+        path = os.path.join(chk.work, "stress.json")
+        with open(path, "w") as f:
+            json.dump(spec, f)
+        t0 = time.time()
+        p = core.run_cmd([os.path.join(bindir, "sched"), "real", path], timeout=1500, check=False)
+        if p.returncode != 0:
+            # a crash of the free-running code under test is data, but the driver must say so itself
+            raise core.ToolError("sched real failed rc=%s: %s" % (p.returncode, p.stderr[-1500:]))
+        evs = [json.loads(l) for l in p.stdout.splitlines()]
+        secs = sorted((e for e in evs if e["ev"] == "sec"), key=lambda e: e["e"])
+        rest = [e for e in evs if e["ev"] not in ("sec", "stress_end")]
+        end = [e for e in evs if e["ev"] == "stress_end"]
+        if len(end) != 1:
+            raise core.ToolError("stress run has no end event")
+        tr = os.path.join(chk.work, "stress.ndjson")
+        core.write_ndjson(tr, rest + secs + end)
+        res = core.run_tlc("SyncStress.tla", "SyncStress.cfg", workers=1, env={"TRACE": tr, "JAVA_TOOL_OPTIONS": JVM_OPTS},
+                           timeout=3000, xmx="4g", xss="256m")
+        core.tlc_must_pass(res, "SyncStress")
+        j = res.printed("STRESS")
+        if len(j) != 1 or j[0]["events"] != len(evs):
+            raise core.ToolError("SyncStress did not judge the trace: " + res.out[-1500:])
+        chk.add_tlc(res)
+        j = j[0]
+        chk.evaluations += j["sections"] + len(rest)
+        chk.extra["real_futex_stress"] = {"threads": spec["threads"], "sections_per_thread": spec["sections"], "sections_judged": j["sections"],
+                                          "write_sections": j["writes"], "futex_scenario_events": len(rest), "hang": end[0]["hang"],
+                                          "wall_s": round(time.time() - t0, 1), "rejected": len(j["bad"])}
+        core.log("stress: %d sections, %d futex scenario events judged in %.1fs, %d rejected" % (j["sections"], len(rest), time.time() - t0, len(j["bad"])))
+        if not j["bad"]:
+            chk.traces += 1
+        seen = set()
+        for b in j["bad"]:
+            if b["code"] in seen:
+                continue
+            seen.add(b["code"])
+            ev = (rest + secs + end)[b["line"] - 1]
+            chk.violate({"lock": self.lock, "code": "real_" + b["code"], "op": ev.get("sc", ev["ev"])},
+                        "%s on the real kernel futex: %s at %s" % (self.lock, b["code"], json.dumps(ev)),
+                        {"mode": "real", "spec": spec, "event": ev, "note": "free-running, not deterministic: re-run `sched real` with this spec"})
+
     def replay(self, path):
         rp = json.load(open(path))["replay"]
+        if rp.get("mode") == "real":
+            chk = core.Check(self.pid, "replay", "model_checking")
+            bindir = core.cargo_build(bins=["sched"])
+            self.stress(chk, bindir, rp["spec"])
+            for v in chk.violations:
+                print("REPRODUCED:", v.what)
+            return 1 if chk.violations else 0
         chk = core.Check(self.pid, "replay", "model_checking")
         bindir = core.cargo_build(bins=["sched"])
         plans = os.path.join(chk.work, "replay_plan.ndjson")
